@@ -326,7 +326,7 @@ refactorings after three rounds of hardening) 44 of 80 still alarmed at first, s
 the honest expectation for an unseen restructuring of an anchored function is
 "about even" - rounds 5 (46 of 80) and 6 (40 of 80) confirmed it; round 7 (31 of
 80) was better, round 8 (36 of 80, right after thirty new rules) was not. Of the 561 kept
-refactorings (rounds 1-8) REFQUIET are quiet today; REFOPEN still
+refactorings (rounds 1-8) 548 are quiet today; 13 (two of round 6, eleven of round 8) still
 alarm and are documented as open in section 8.3. The mirror and
 lockstep rules would fire on an asymmetric-but-equivalent rewrite of one twin.
 Refactorings that rename exported API or change a struct's field *types* are
